@@ -423,6 +423,14 @@ func Substr(s, lo, hi *Term) *Term {
 			}
 		}
 	}
+	// (a ++ rest)[0:len(a)] = a
+	if s.Op == "str.++" && len(s.Args) >= 2 && lo.Op == "int" && lo.Int.Sign() == 0 {
+		for k := 1; k < len(s.Args); k++ {
+			if hi.Key() == StrLen(Concat(s.Args[:k]...)).Key() {
+				return Concat(s.Args[:k]...)
+			}
+		}
+	}
 	// substr of substr
 	if s.Op == "str.substr" {
 		base, l0 := s.Args[0], s.Args[1]
@@ -629,8 +637,14 @@ func SMTQuery(hyps []*Term, goal *Term, extraDecl string, wantModel bool) string
 		}
 		fmt.Fprintf(&sb, "(declare-fun %s (%s) %s)\n", smtName(n), strings.Join(as, " "), d.res)
 	}
+	seen := map[string]bool{}
 	for _, h := range hyps {
-		fmt.Fprintf(&sb, "(assert %s)\n", p.print(h))
+		txt := p.print(h)
+		if seen[txt] {
+			continue
+		}
+		seen[txt] = true
+		fmt.Fprintf(&sb, "(assert %s)\n", txt)
 	}
 	if goal != nil {
 		fmt.Fprintf(&sb, "(assert (not %s))\n", p.print(goal))
@@ -640,6 +654,23 @@ func SMTQuery(hyps []*Term, goal *Term, extraDecl string, wantModel bool) string
 		sb.WriteString("(get-model)\n")
 	}
 	return sb.String()
+}
+
+// DedupeHyps drops hypotheses that print identically to an earlier one (spec evaluation re-asserts model facts).
+func DedupeHyps(hyps []*Term) []*Term {
+	p := &smtPrinter{decls: map[string]decl{}, memo: map[string]string{}}
+	seen := map[string]bool{}
+	var out []*Term
+	for _, h := range hyps {
+		p.collect(h, nil)
+		txt := p.print(h)
+		if seen[txt] {
+			continue
+		}
+		seen[txt] = true
+		out = append(out, h)
+	}
+	return out
 }
 
 // Subst replaces variables by name.
